@@ -28,6 +28,7 @@ const TEMPLATES: &[(&str, &str, &str)] = &[
     ("<ul><li id=t>one</li><li>two</ul><p>z</p>", "#t", "data"),
     ("<table><tr><td id=t>c</td></tr></table><p>z</p>", "#t", "data"),
     ("<p>a<br id=t>b</p><p>z</p>", "#t", "void"),
+    ("<p><a id=t \u{30a2}\u{30a4}\u{30b3}\u{30f3}=1 href=x \u{8a9e}=y>l</a></p><p>z</p>", "#t", "data"),
     ("<p>q</p><plaintext id=t>rest <b> of </plaintext> doc", "#t", "raw"),
 ];
 
@@ -351,7 +352,7 @@ fn gen_case(rng: &mut Rng, encs: &[&'static encoding_rs::Encoding]) -> Case8 {
         4 => Op::SetInner(text(rng, &s)),
         5 => Op::Replace(text(rng, &s)),
         6 => Op::StAfter(text(rng, &s)),
-        7 | 8 => Op::SetAttr(if rng.bool() { s.clone() } else { (*rng.pick(&["title", "data-x", "href", "class", "x"])).to_string() }, nasty(rng)),
+        7 | 8 => Op::SetAttr(if rng.bool() { s.clone() } else { (*rng.pick(&["title", "data-x", "href", "class", "x", "\u{30a2}\u{30a4}\u{30b3}\u{30f3}", "\u{8a9e}", "ID", "HREF"])).to_string() }, nasty(rng)),
         9 | 10 => Op::SetTagName(if rng.chance(2, 3) { format!("x{}", s) } else { s.clone() }),
         _ => Op::StBefore(text(rng, &s)),
     };
